@@ -14,6 +14,7 @@ CONSTANTS
   WithDNSFail = FALSE
   SlowSet = {FALSE}
   CnSet = {"no"}
+  QuitSet = {"bye"}
   Devs = {"PoolUnchecked"}
   Gen = FALSE
 VIEW View
